@@ -1084,6 +1084,32 @@ func checkTraversals(ref *refGraph, vm *vertexMaker, r *rand.Rand, res *CaseResu
 	for i := 0; i < n; i++ {
 		idx[vm.key(i)] = i
 	}
+	if r.Intn(2) == 0 && n > 0 {
+		// history before the checked traversals: the graph has been queried,
+		// a COPY of it has been mutated (new edges from former sinks and into
+		// former sources, a removal), and some vertices have been overwritten
+		// by new objects with the same hash code. None of this changes the
+		// graph under test.
+		func() {
+			defer func() { recover() }() // (a cyclic graph makes KahnSort panic, as it must)
+			g.StronglyConnected()
+			g.KahnSort()
+		}()
+		_ = g.Vertices()
+		cp := g.Copy()
+		for k := 0; k < 1+r.Intn(2*n); k++ {
+			cp.AddEdgeWeighted(vs[r.Intn(n)], vs[r.Intn(n)], r.Intn(3))
+		}
+		if r.Intn(2) == 0 {
+			cp.Remove(vs[r.Intn(n)])
+		}
+		for k := 0; k < r.Intn(3); k++ {
+			i := r.Intn(n)
+			vs[i] = vm.make(i)
+			g.AddOverwrite(vs[i])
+		}
+		res.obs("traversals_checked_after_a_history", 1)
+	}
 	reach := ref.reach()
 	// ---- DFS
 	descend := make([]bool, n)
